@@ -455,6 +455,10 @@ pub fn lane_skip(seed: u64) -> Vec<Scenario> {
         LayeredInlineWins,
         /// both layers set and the test exits with the defaults' code (99), which is not its skip code
         LayeredDefaultsCodeNoSkip,
+        /// the custom code is 0: a test case that simply succeeds skips the document
+        CustomZero,
+        /// the custom code sits next to other keys of the same inline configuration
+        CustomInlineWithOtherKeys,
     }
     for cram in [false, true] {
         for how in [
@@ -465,6 +469,8 @@ pub fn lane_skip(seed: u64) -> Vec<Scenario> {
             How::EightyButCustom,
             How::LayeredInlineWins,
             How::LayeredDefaultsCodeNoSkip,
+            How::CustomZero,
+            How::CustomInlineWithOtherKeys,
         ] {
             if cram && how != How::Default80 {
                 continue;
@@ -476,6 +482,7 @@ pub fn lane_skip(seed: u64) -> Vec<Scenario> {
                         let code = match how {
                             How::Default80 | How::EightyButCustom => 80,
                             How::LayeredDefaultsCodeNoSkip => 99,
+                            How::CustomZero => 0,
                             _ => 33,
                         };
                         let exp = match expected {
@@ -493,6 +500,15 @@ pub fn lane_skip(seed: u64) -> Vec<Scenario> {
                                 });
                                 if how == How::CustomInline {
                                     p.cfg.skip_code = Some(33);
+                                }
+                                if how == How::CustomInlineWithOtherKeys {
+                                    p.cfg.skip_code = Some(33);
+                                    p.cfg.timeout_ns = Some(30 * SEC);
+                                    p.cfg.keep_crlf = Some(true);
+                                    p.cfg.wait = Some(Wait { timeout_ns: 10 * MS, path: None });
+                                }
+                                if how == How::CustomZero {
+                                    p.cfg.skip_code = Some(0);
                                 }
                                 if matches!(how, How::EightyButCustom | How::LayeredInlineWins | How::LayeredDefaultsCodeNoSkip) {
                                     p.cfg.skip_code = Some(33);
@@ -1186,6 +1202,96 @@ pub fn lane_stream_layers(seed: u64) -> Vec<Scenario> {
                     }
                 }
             }
+        }
+    }
+    out
+}
+
+/// C20: single-script documents with one test case and with two-digit divider indices; a Cram
+/// document prepended / appended to a Markdown one
+pub fn lane_cram_sizes(seed: u64) -> Vec<Scenario> {
+    let mut out = vec![];
+    let mut g = G::new(seed ^ 0xc2a3);
+    for n in [1usize, 2, 9, 10, 11, 13] {
+        for special in ["all-pass", "fail-last", "fail-first", "code-mid", "skip-last", "exit-mid"] {
+            let mut sim = base_sim(g.rng.next_u64());
+            let mut tests = vec![];
+            for k in 0..n {
+                let plan = match special {
+                    "fail-last" if k + 1 == n => Plan::new(Fate::WrongOutput),
+                    "fail-first" if k == 0 => Plan::new(Fate::WrongOutput),
+                    "code-mid" if k == n / 2 => Plan::new(Fate::Code { code: 100 + k as i32, expected: Some(100 + k as i32), exit_shell: false }),
+                    "skip-last" if k + 1 == n => Plan::new(Fate::Code { code: 80, expected: None, exit_shell: false }),
+                    "exit-mid" if k == n / 2 && n > 1 => Plan::new(Fate::Code { code: 4, expected: Some(4), exit_shell: true }),
+                    _ => {
+                        let mut p = Plan::new(Fate::Pass);
+                        p.lines = k % 3;
+                        p
+                    }
+                };
+                tests.push(g.test(&plan, &mut sim.programs));
+            }
+            let d = doc(&format!("sizes/n{}.t", n), Format::Cram, tests);
+            let other = doc("sizes/other.md", Format::Md, vec![g.test(&Plan::new(Fate::Pass), &mut sim.programs)]);
+            let mut sc = Scenario {
+                lane: format!("cram-sizes/{}/{}", n, special),
+                tier: Tier::Cli,
+                script_mode: false,
+                docs: vec![d, other],
+                cli: Cli::default(),
+                sim,
+                pretty: false,
+                check: all_checks(),
+            };
+            fill_expectations(&mut sc, &mut g);
+            out.push(sc);
+        }
+    }
+    // a Cram document as shared set-up / tear-down of a Markdown document
+    for which in ["prepend", "append", "both"] {
+        for fail in [false, true] {
+            let mut sim = base_sim(g.rng.next_u64());
+            let mk = |g: &mut G, sim: &mut SimScenario, path: &str, f: Format, plans: &[Plan]| {
+                let tests = plans.iter().map(|p| g.test(p, &mut sim.programs)).collect();
+                doc(path, f, tests)
+            };
+            let pass2 = [Plan::new(Fate::Pass), Plan::new(Fate::Pass)];
+            let mut shared = mk(&mut g, &mut sim, "x/shared.t", Format::Cram, &pass2);
+            shared.main = false;
+            let mut shared2 = mk(&mut g, &mut sim, "x/shared2.t", Format::Cram, &pass2[..1]);
+            shared2.main = false;
+            let plans = if fail { vec![Plan::new(Fate::Pass), Plan::new(Fate::WrongOutput)] } else { pass2.to_vec() };
+            let mut main = mk(&mut g, &mut sim, "x/main.md", Format::Md, &plans);
+            let mut docs = vec![];
+            match which {
+                "prepend" => {
+                    main.prepend.push("shared.t".into());
+                    docs.push(shared);
+                }
+                "append" => {
+                    main.append.push("shared.t".into());
+                    docs.push(shared);
+                }
+                _ => {
+                    main.prepend.push("shared.t".into());
+                    main.append.push("shared2.t".into());
+                    docs.push(shared);
+                    docs.push(shared2);
+                }
+            }
+            docs.push(main);
+            let mut sc = Scenario {
+                lane: format!("cram-sizes/cross-format-{}/{}", which, fail),
+                tier: Tier::Cli,
+                script_mode: false,
+                docs,
+                cli: Cli::default(),
+                sim,
+                pretty: false,
+                check: vec!["C20".into(), "C05".into(), "C15".into(), "C13".into()],
+            };
+            fill_expectations(&mut sc, &mut g);
+            out.push(sc);
         }
     }
     out
